@@ -1053,6 +1053,11 @@ def oracle_net(case, obs, obs2):
     else:
         want = [c['id'] for c in chs if fits(c, case['si'][:2])]
     launched = [c['id'] for c in chs]
+    if obs['filter'] is None and obs['exc'] is None:
+        fails.append(('filter_not_applied', 'request.propagate did not call filter_si before the first element'))
+        if obs.get('out') != want:
+            fails.append(('receiver_set', f'received {obs.get("out")} != channels fitting every amplifier {want}'))
+        return fails
     if obs['filter'] is None:
         if want or not (obs['exc'] or '').startswith('E:ValueError'):
             fails.append(('propagate_raises', f'{obs.get("exc_msg")} although channels {want[:6]} fit every amplifier'))
@@ -1244,9 +1249,9 @@ def run(ctx):
         rec = json.load(open(ctx.replay))
         cases = [rec['case']]
     else:
-        n = {'mk': ctx.scale(260, 3000), 'demux': ctx.scale(100, 1200), 'mux': ctx.scale(100, 1200),
-             'fcr': ctx.scale(260, 3000), 'filter': ctx.scale(100, 1200), 'elem': ctx.scale(140, 1600),
-             'fpath': ctx.scale(140, 1600)}
+        n = {'mk': ctx.scale(220, 3000), 'demux': ctx.scale(80, 1200), 'mux': ctx.scale(80, 1200),
+             'fcr': ctx.scale(220, 3000), 'filter': ctx.scale(80, 1200), 'elem': ctx.scale(120, 1600),
+             'fpath': ctx.scale(120, 1600)}
         for k in KINDS:
             cases += [gen_case(rng, k) for _ in range(n[k])]
     # network-level cases
@@ -1279,7 +1284,7 @@ def run(ctx):
             ctx.count('example_net_failed')
             ctx.notes.append(f'multiband example could not be designed: {type(e).__name__}: {e}')
         nb = 0
-        for _ in range(ctx.scale(36, 300)):
+        for _ in range(ctx.scale(30, 300)):
             desc = gen_net(rng)
             try:
                 eq, net, req, path = build_net(desc)
